@@ -1,6 +1,8 @@
 package main
 
 import (
+	"fmt"
+	"net/http"
 	"bytes"
 	"crypto/x509"
 	"sync"
@@ -152,7 +154,40 @@ func opConcSigner(a []Sx) Sx {
 
 var _ = bundle.Read
 
+// sxg_signer_rekey ver i: ONE Signer signs an exchange with key K1, is re-keyed (PrivKey, Certs), signs a
+// second exchange with K2; each exchange must verify against the certificate it names.
+func opSxgSignerRekey(a []Sx) Sx {
+	keysOnce()
+	ver := sxgVersions[a[0].Int()%3]
+	k1, k2 := sxgKeys[a[1].Int()%2], sxgKeys[(a[1].Int()+1)%2]
+	if a[1].Int()%3 == 2 {
+		k2 = sxgKeys[2]
+	}
+	signer := &sxg.Signer{Date: time.Unix(baseDate, 0), Expires: time.Unix(baseDate+100, 0), Certs: []*x509.Certificate{k1.cert},
+		CertUrl: mustURL("https://cert.example.org/cert.cbor"), ValidityUrl: mustURL("https://example.com/v"), PrivKey: k1.priv}
+	out := []Sx{}
+	for step, k := range []keyMat{k1, k2, k1} {
+		if step > 0 {
+			signer.PrivKey, signer.Certs = k.priv, []*x509.Certificate{k.cert}
+		}
+		h := http.Header{}
+		h.Add("Content-Type", "text/html")
+		e := sxg.NewExchange(ver, "https://example.com/index.html", "GET", http.Header{}, 200, h, []byte("payload of step "+fmt.Sprint(step)))
+		if err := e.MiEncodePayload(16); err != nil {
+			return L(Sym("err"))
+		}
+		if err := e.AddSignatureHeader(signer); err != nil {
+			return L(Sym("err"))
+		}
+		chain := chainBytes([][]byte{k.der})
+		_, ok := e.Verify(time.Unix(baseDate+1, 0), func(string) ([]byte, error) { return chain, nil }, discardLog)
+		out = append(out, Bool(ok))
+	}
+	return L(out...)
+}
+
 func init() {
+	regOp("sxg_signer_rekey", opSxgSignerRekey)
 	regOp("conc", opConc)
 	regOp("conc_shared", opConcShared)
 	regOp("conc_signer", opConcSigner)
